@@ -341,6 +341,7 @@ Inductive op :=
 (* buses *)
 | OBusNew (audio : bool) (addr : option Z) (chans : Z) (index : option Z)
 | OBusFree (u : nat)
+| OBusSub (u : nat) (offset chans : Z)                    (* bus.sub_bus(offset, channels) = type(bus).new_from(bus, ...) *)
 | OBusSet (u : nat) (offset : Z) (values : list pval)    (* set = set_at 0 *)
 | OBusSetn (u : nat) (offset : Z) (values : list pval)
 | OBusSetPairs (u : nat) (pairs : list pval)
@@ -864,6 +865,18 @@ Definition obj_step (s : st) (o : op) : res :=
         ok (add_bus s1 (Some (mkBus audio (PInt a) (PInt chans)))) []
       | None => fail (add_bus s None) EOther                (* BusException *)
       end
+    end
+  | OBusSub u off ch =>
+    match get_bus s u with
+    | Some x =>
+      match u_chans x, u_index x with
+      | PInt c, PInt a =>
+        (* if offset > bus._channels or channels + offset > bus._channels: raise BusException *)
+        if (off >? c) || (ch + off >? c) then fail (add_bus s None) EOther
+        else ok (add_bus s (Some (mkBus (u_audio x) (PInt (a + off)) (PInt ch)))) []
+      | _, _ => fail (add_bus s None) EOther          (* freed parent: None in the comparison / sum, TypeError *)
+      end
+    | None => fail (add_bus s None) EOther
     end
   | OBusFree u =>
     match get_bus s u with
